@@ -97,7 +97,16 @@ def _load(unit):
         mod.configure(mod.P)
     mod.CEX = None
     mod.SAMPLES = []
+    if hasattr(mod, "probe"):
+        try:
+            mod.probe()
+        except (AttributeError, ImportError, TypeError) as e:
+            raise SkipUnit(f"internal attribute this harness relies on is gone (behaviour-preserving refactor?): {type(e).__name__}: {e}") from None
     return mod, getattr(mod, unit["fn"])
+
+
+class SkipUnit(Exception):
+    pass
 
 
 def run_decide(unit):
@@ -248,6 +257,8 @@ def main() -> None:
                 res = run_sample(unit)
             else:
                 res = run_native(unit)
+        except SkipUnit as e:
+            res = {"status": "SKIPPED", "message": str(e)}
         except BaseException as e:  # noqa: BLE001
             res = {"status": "ERROR", "message": f"{type(e).__name__}: {e}",
                    "trace": traceback.format_exc()[-3000:]}
